@@ -107,6 +107,14 @@ func Roll(src *rand.PCGSource, dicePoints IntType, mod int) IntType {
 	return IntType(_roll32(src, int(dicePoints)))
 }
 
+// diceSidesSupported 面数是否在取整算法支持的范围内(上限为整数最大值-1；超出时 Roll 只会返回 0)
+func diceSidesSupported(points IntType) bool {
+	if IntTypeSize == 8 {
+		return int64(points) <= math.MaxInt64-1
+	}
+	return int64(points) <= math.MaxInt32-1
+}
+
 func wodCheck(e *Context, addLine IntType, pool IntType, points IntType, threshold IntType) bool {
 	// makeE6 := func() {
 	//	e.Error = errors.New("E6: 类型错误")
@@ -124,6 +132,10 @@ func wodCheck(e *Context, addLine IntType, pool IntType, points IntType, thresho
 
 	if points < 1 {
 		e.Error = errors.New("E7: 非法数值, 面数至少为1")
+		return false
+	}
+	if !diceSidesSupported(points) {
+		e.Error = errors.New("E7: 非法数值, 面数过大")
 		return false
 	}
 
@@ -241,6 +253,10 @@ func doubleCrossCheck(ctx *Context, addLine, pool, points IntType) bool {
 
 	if points < 1 {
 		ctx.Error = errors.New("E7: 非法数值, 面数至少为1")
+		return false
+	}
+	if !diceSidesSupported(points) {
+		ctx.Error = errors.New("E7: 非法数值, 面数过大")
 		return false
 	}
 
